@@ -173,6 +173,32 @@ def build(recipe):
         drop = {i for i in range(len(base.residues)) if rng.random() < p}
         return _rebuild(base, keep_atom=lambda ri, ai, a: not (ri in drop and _is_backbone(a.name))), \
             recipe.get("ann_model")
+    if v == "zeroocc":
+        # the base atoms of some residues carry occupancy 0.00 (built but not observed): geometry is geometry
+        from rnapolis.tertiary import Atom, Residue3D, Structure3D
+        pick = {i for i in range(len(base.residues)) if rng.random() < p}
+        out = []
+        for ri, r in enumerate(base.residues):
+            if ri in pick:
+                atoms = tuple(Atom(a.entity_id, a.label, a.auth, a.model, a.name, a.x, a.y, a.z,
+                                   a.occupancy if _is_backbone(a.name) or a.name == "C1'" else 0.0) for a in r.atoms)
+                r = Residue3D(r.label, r.auth, r.model, r.one_letter_name, atoms)
+            out.append(r)
+        return Structure3D(out), recipe.get("ann_model")
+    if v == "longchain":
+        # the alphabetically first chain gets a longer name ("A" -> "A-2", as assemblies do): "A-2" < "B"
+        from rnapolis.common import ResidueAuth, ResidueLabel
+        names = sorted({r.auth.chain for r in base.residues if r.auth is not None})
+        if len(names) < 2:
+            return base, recipe.get("ann_model")
+        first = names[0]
+
+        def ren(ri, r):
+            au = r.auth
+            if au is not None and au.chain == first:
+                au = ResidueAuth(first + "-2", au.number, au.icode, au.name)
+            return (r.label, au)
+        return _rebuild(base, relabel=ren), recipe.get("ann_model")
     if v == "icode":
         # order-preserving renumbering with insertion codes: residue k+1 becomes k^A for some k
         from rnapolis.common import ResidueAuth
@@ -472,6 +498,8 @@ def recipes(tier):
             out.append({"file": f, "variant": "baseonly", "param": 0.25, "seed": 1})
             out.append({"file": f, "variant": "icode", "param": 0.3, "seed": 1})
             out.append({"file": f, "variant": "splitres", "param": 0.3, "seed": 1})
+            out.append({"file": f, "variant": "zeroocc", "param": 0.25, "seed": 1})
+            out.append({"file": f, "variant": "longchain", "param": 0, "seed": 1})
         out.append({"file": files[2], "variant": "twomodel", "param": 1})
         out.append({"file": files[2], "variant": "twomodel", "param": 2})
         out.append({"file": "2HY9.cif", "read_model": 2, "variant": "orig"})
@@ -493,6 +521,8 @@ def recipes(tier):
                 out.append({"file": f, "variant": "baseonly", "param": 0.25, "seed": k})
                 out.append({"file": f, "variant": "icode", "param": 0.3, "seed": k})
                 out.append({"file": f, "variant": "splitres", "param": 0.3, "seed": k})
+                out.append({"file": f, "variant": "zeroocc", "param": 0.25, "seed": k})
+            out.append({"file": f, "variant": "longchain", "param": 0, "seed": 0})
             for k in range(2):
                 out.append({"file": f, "variant": "shuffle", "seed": k})
             for p in (0.9, 0.93, 0.96):
